@@ -6,6 +6,8 @@ CONSTANTS
   LeafChoices <- ExhLeafChoices
   Universe = "ns"
   TypeDepth0 = 0
+  RichArgs = FALSE
+  MaxItems = 3
   MaxArgs = 0
   Target = 3
   MinDecls = 1
